@@ -57,6 +57,18 @@ CHECKS = {
         "Trusted: CPython ints; zone.get_utc_offset (decided by C04-C06); day<->date bijection (C01).",
         "DESIGN.md §2 C11",
     ),
+    "C12": (
+        "exploration",
+        "Hypothesis property-based testing with a per-type component-key oracle + generated method-call histories with a snapshot-at-birth invariant",
+        "For 17 value types, triples drawn from small pools (equal-but-distinct objects built through different "
+        "constructors, one-component differences, other calendars, unrelated operands) are compared with the documented "
+        "component key: ==, !=, reflexivity/symmetry/transitivity, hash agreement, trichotomy, <=/>=, compare_to, min/max, "
+        "ValueError across calendars, TypeError against unrelated types. Generated sequences of public method calls "
+        "snapshot every value at birth (all public properties, rendered by the harness) and re-check all snapshots "
+        "after every step, so no operation mutates its receiver, arguments or any earlier value.",
+        "Trusted: the component keys in checks/c12.py (from the type documentation); day<->date bijection (C01).",
+        "DESIGN.md §2 C12",
+    ),
     "C13": (
         "exploration",
         "generated query histories built to alias cache slots, checked against cache-free oracles + generated line-level thread schedules and a 16-thread stress run",
